@@ -189,11 +189,12 @@ Proof.
         rewrite HW0 in *. exists 1%nat. split.
         -- split; [lia|]. split; [|left; reflexivity]. apply fits_twos_S. cbn in Hup |- *. lia.
         -- rewrite <- (Hcong 1%nat) by lia. reflexivity.
-      * rewrite HW in *. clear HW.
+      * rewrite HW in *.
         rewrite (be_bytes_cons (S W'')), (be_bytes_cons W'').
         rewrite pow256_S in Hup. rewrite !pow256_S in Hy.
         pose proof (pow256_pos W'') as HP. rewrite pow256_S. set (P := 256 ^ Z.of_nat W'') in *.
-        rewrite <- Z.div_div by lia.
+        assert (Hyq: y = z + 65536 * P) by (unfold y; rewrite HW, !pow256_S; fold P; lia).
+        rewrite (Z.mul_comm 256 P), <- Z.div_div by lia.
         set (q := y / P).
         assert (Hq: 128 * 256 <= q < 65536).
         { unfold q. split; [apply Z.div_le_lower_bound; lia|apply Z.div_lt_upper_bound; lia]. }
@@ -201,7 +202,6 @@ Proof.
         rewrite land128_eq0 by lia.
         assert (Hcond: ((q / 256 =? 255) && negb (q mod 256 <? 128)) = (65408 <=? q)) by lia.
         rewrite Hcond.
-        assert (Hyq: y = z + 65536 * P) by (unfold y; rewrite !pow256_S; fold P; lia).
         destruct (Z.leb_spec 65408 q) as [Hge|Hlt].
         -- (* strip the leading 0xff *)
            assert (Hy': 65408 * P <= y) by (pose proof (Z.mul_div_le y P HP); fold q in H; nia).
@@ -220,7 +220,7 @@ Proof.
               ** right. replace (S (S W'') - 1)%nat with (S W'') by lia. apply fits_twos_S_false. fold P. lia.
            ++ rewrite <- (Hcong (S (S W''))) by lia.
               rewrite (be_bytes_cons (S W'')), (be_bytes_cons W''). rewrite pow256_S. fold P.
-              rewrite <- Z.div_div by lia. fold q. rewrite (Z.mod_small (q / 256) 256) by lia. reflexivity.
+              rewrite (Z.mul_comm 256 P), <- Z.div_div by lia. fold q. rewrite (Z.mod_small (q / 256) 256) by lia. reflexivity.
     + (* zero *)
       assert (z = 0) by lia. subst z. exists 1%nat. split; [|reflexivity].
       split; [lia|]. split; [reflexivity|left; reflexivity].
@@ -260,14 +260,12 @@ Proof.
   - (* negative: residue is z + 256 P, top digit >= 128 *)
     assert (Hm: z mod (256 * P) = z + 256 * P).
     { symmetry. apply (Z.mod_unique_pos _ _ (-1)); lia. }
-    assert (Hd: (z / P) mod 256 = (z + 256 * P) / P).
-    { replace (z + 256 * P) with (z + 256 * P) by lia. rewrite Z.div_add by lia.
-      symmetry. apply (Z.mod_unique_pos _ _ (-1)); [|lia].
-      split; [|apply Z.div_lt_upper_bound; lia].
-      assert (- 128 <= z / P) by (apply Z.div_le_lower_bound; lia). lia. }
+    assert (Hzp: - 128 <= z / P < 0).
+    { split; [apply Z.div_le_lower_bound; lia|apply Z.div_lt_upper_bound; lia]. }
+    assert (Hd: (z / P) mod 256 = z / P + 256).
+    { symmetry. apply (Z.mod_unique_pos _ _ (-1)); lia. }
     rewrite Hd, Hm.
-    assert (128 <= (z + 256 * P) / P) by (apply Z.div_le_lower_bound; lia).
-    replace (128 <=? (z + 256 * P) / P) with true by lia. lia.
+    replace (128 <=? z / P + 256) with true by lia. lia.
   - rewrite (Z.mod_small z (256 * P)) by lia.
     assert (z / P < 128) by (apply Z.div_lt_upper_bound; lia).
     assert (0 <= z / P) by (apply Z.div_pos; lia).
